@@ -8,6 +8,8 @@ pub mod lang;
 pub mod rules;
 pub mod test_utils;
 pub mod traits;
+#[cfg(feature = "verif_hooks")]
+pub mod verif;
 
 pub mod prelude {
     pub use crate::defaults::*;
